@@ -150,6 +150,20 @@ impl HasPrefetch<u16> for HWT<u16> { fn rp(&self, c: u16, i: usize) -> Option<us
 fn tree_prefetch<E: Copy + std::fmt::Display, T: HasPrefetch<E>>(t: &T, c: E, i: usize, inp: &str, label: &str, exp: Option<usize>) {
     chk!(label, inp.to_string(), format!("rank_prefetch({}, {})", c, i), t.rp(c, i), exp);
 }
+/// `sigma()` (the largest symbol; None for the empty tree) of the plain quad trees (C01: "reports len = |S| and the largest symbol")
+fn qwt_sigma(rng: &mut StdRng) {
+    let s: Vec<u64> = gen_seq(rng, 64).into_iter().map(|x| x as u64).collect();
+    let max = *s.iter().max().unwrap();
+    let inp = if s.len() <= 40 { format!("{:?}", s) } else { format!("len {} max {}", s.len(), max) };
+    let a = QWT256::<u64>::from(s.clone()); let b = QWT512Pfs::<u64>::from(s.clone());
+    chk!("QWT256<u64>/QWT512Pfs<u64>", inp.clone(), "sigma() / len() / is_empty()".to_string(), (a.sigma(), b.sigma(), a.len(), b.len(), a.is_empty()), (Some(max), Some(max), s.len(), s.len(), false));
+    let s8: Vec<u8> = s.iter().map(|&x| x as u8).collect();
+    let m8 = *s8.iter().max().unwrap();
+    let c = QWT256::<u8>::from(s8.clone());
+    chk!("QWT256<u8>", format!("{:?}...", &s8[..s8.len().min(20)]), "sigma()".to_string(), c.sigma(), Some(m8));
+    let e = QWT256::<u8>::from(Vec::<u8>::new()); let d = QWT512::<u64>::default();
+    chk!("QWT256<u8>/QWT512<u64>", "empty / default".to_string(), "sigma() / is_empty()".to_string(), (e.sigma(), d.sigma(), e.is_empty(), d.is_empty()), (None, None, true, true));
+}
 tree_test!(qwt_a, QWT256<u8>, u8, 8, "QWT256<u8>", true, true);
 tree_test!(qwt_b, QWT512<u64>, u64, 64, "QWT512<u64>", true, true);
 tree_test!(qwt_c, QWT256Pfs<u64>, u64, 40, "QWT256Pfs<u64>", true, true);
@@ -213,6 +227,13 @@ fn qvector_test(rng: &mut StdRng) {
     let mut b = QVectorBuilder::new();
     for &v in &vals { b.push(v as u8); }
     let qv = b.build();
+    {
+        let cap = match rng.gen_range(0..4) { 0 => 0, 1 => n, 2 => 256 * rng.gen_range(0..4usize), _ => rng.gen_range(0..2 * n + 2) };
+        let mut bc = QVectorBuilder::with_capacity(cap);
+        for &v in &vals { bc.push(v as u8); }
+        let qc = bc.build();
+        chk!("QVector", inp.clone(), format!("with_capacity({}) + push: (== new + push, len, is_empty)", cap), (qc == qv, qc.len(), qc.is_empty()), (true, n, n == 0));
+    }
     let qv2: QVector = vals.iter().copied().collect();
     chk!("QVector", inp.clone(), "len()".to_string(), qv.len(), n);
     chk!("QVector", inp.clone(), "collect == push".to_string(), qv2 == qv, true);
@@ -246,12 +267,19 @@ fn qvector_test(rng: &mut StdRng) {
 
 fn bitvector_test(rng: &mut StdRng) {
     let mut model: Vec<bool> = Vec::new();
-    let mut bv = BitVectorMut::new();
     let mut hist = String::new();
+    // every way to get a fresh vector: new, with_capacity (empty), with_zeros, default
+    let mut bv = match rng.gen_range(0..6) {
+        0 => { let c = match rng.gen_range(0..3) { 0 => 0, 1 => 512 * rng.gen_range(0..3usize), _ => rng.gen_range(0..2000usize) }; hist += &format!("with_capacity({});", c); BitVectorMut::with_capacity(c) }
+        1 => { let z = match rng.gen_range(0..3) { 0 => 0, 1 => 64 * rng.gen_range(0..20usize), _ => rng.gen_range(0..1500usize) }; hist += &format!("with_zeros({});", z); model.extend(std::iter::repeat(false).take(z)); BitVectorMut::with_zeros(z) }
+        2 => { hist += "default();"; BitVectorMut::default() }
+        _ => BitVectorMut::new(),
+    };
     let steps = rng.gen_range(1..40);
     for _ in 0..steps {
-        let op = rng.gen_range(0..6);
+        let op = rng.gen_range(0..7);
         match op {
+            6 => { hist += "shrink_to_fit();"; bv.shrink_to_fit(); }
             0 => { let b = rng.gen(); hist += &format!("push({});", b); model.push(b); bv.push(b); }
             1 => { let len = rng.gen_range(0..=64usize); let bits: u64 = if len == 64 { rng.gen() } else { rng.gen::<u64>() & ((1u64 << len) - 1) };
                    hist += &format!("append_bits({:#x},{});", bits, len); for t in 0..len { model.push((bits >> t) & 1 == 1); } bv.append_bits(bits, len); }
@@ -576,7 +604,7 @@ fn main() {
             "utils" => utils_test(&mut rng),
             "qvector" => qvector_test(&mut rng),
             "bitvector" => bitvector_test(&mut rng),
-            "qwt" => { qwt_a(&mut rng); qwt_b(&mut rng); qwt_c(&mut rng); qwt_d(&mut rng); qwt_e(&mut rng); }
+            "qwt" => { qwt_sigma(&mut rng); qwt_a(&mut rng); qwt_b(&mut rng); qwt_c(&mut rng); qwt_d(&mut rng); qwt_e(&mut rng); }
             "wt" => { wt_a(&mut rng); wt_b(&mut rng); wt_c(&mut rng); hwt_a(&mut rng); hwt_b(&mut rng); }
             "hqwt" => { hq_a(&mut rng); hq_b(&mut rng); }
             "rsq" => { rsq_a(&mut rng); rsq_b(&mut rng); }
